@@ -416,7 +416,7 @@ func RunWorker(t *testing.T) {
 		if pd.Extra != nil {
 			pd.Extra(w)
 		}
-		w.Out.Complete = true
+		w.Out.Complete = !w.expired()
 	}
 	w.Out.WallS = time.Since(w.start).Seconds()
 	sort.Slice(w.Out.Hashes, func(i, j int) bool { return w.Out.Hashes[i] < w.Out.Hashes[j] })
